@@ -14,7 +14,7 @@ def c08split : Handler :=
 def c08opus : Handler :=
   mkHandler rdCalls rdPayObsList
     (fun calls => calls.map fun (m, b) => PayObs.ofFrags (Model.opusPayload m b))
-    (fun calls os => C08.histOk true calls os)
+    (fun calls os => C08.histOk true calls os && C08.opusOneFragment calls os)
 
 /-- per call: `res head tail0 tail1 auxPanic freshSame twinSame` (Opus has no metadata beyond the payload) -/
 def rdDepObsUnit : Rd (C09.DepObs Unit) := do
